@@ -22,7 +22,7 @@ sizes that push a length field over its width).  The remaining entries name the 
 each varied dimension, e.g. ('core', 'enc=new', 'pref=max', 'bsid=absent', ...).
 
 Deterministic (no randomness, no hash-order dependence), simplest first inside every family.
-tier 'quick' yields about 25 k cases, 'thorough' about 700 k.  Payloads may share sub-objects with
+tier 'quick' yields about 11 k cases (1 s with yabgp + walker), 'thorough' about 570 k (30 s).  Payloads may share sub-objects with
 one another: treat them as read-only (yabgp's constructors do not modify their arguments).
 """
 import itertools
@@ -367,8 +367,9 @@ def _flowspec6(tier):
     for ct in _FS6_NUMERIC:
         for op in _FS_OPS:
             for v in _FS_VALUES:
-                core = _fs_value_class(v) != '3-octet'
-                yield ('flowspec6', ('core' if core else 'extra', 'numeric', 'comp=%d' % ct, 'op=' + op,
+                # 65536 and 2^24-1 need three significant octets; RFC 8955 has no 3-octet value, the
+                # encoder must widen to 4 (or fail) - a boundary paragraph A names, hence 'core'
+                yield ('flowspec6', ('core', 'numeric', 'comp=%d' % ct, 'op=' + op,
                                      'value=%d' % v, _fs_value_class(v)), 'update',
                        (_fs6_msg([{ct: '%s%d' % (op, v)}]), True))
     # --- 2 and 3 '|'-joined terms (value sizes mixed inside one list)
